@@ -9,4 +9,11 @@ struct CatalogEntry { byte raw_name_[8]; byte raw_metadata_[8]; };
 /* dfs_volume.h: class Volume::Access { unsigned long origin_; unsigned long len_; DataAccess& underlying_; } */
 struct VolumeAccess { unsigned long origin_; unsigned long len_; struct DataAccess *underlying_; };
 
+
+/* img_fileio.h: class FileView { DataAccess& media_; ...; unsigned long initial_skip_; sector_count_type take_, leave_, total_; } */
+struct FileView { struct DataAccess *media_; unsigned long initial_skip_; sector_count_type take_, leave_, total_; };
+
+/* img_sdf.h: class FilePresentedBlockwise { FileAccess& f_; } */
+struct FileAccess { int id; };
+struct FilePresentedBlockwise { struct FileAccess *f_; };
 #endif
